@@ -24,6 +24,15 @@ CHECKS = {
  "C20": dict(cat="exploration", tech="exhaustive enumeration of continuous LinearModel families with named rows, filtered exactly to unique non-degenerate optima; reported shadow prices compared with exact multipliers that are self-checked against exact two-sided finite differences",
    text="For every family member with a unique non-degenerate optimum (exact test) whose +-1/1024 rhs perturbations keep the basis, the exact multipliers are computed and confirmed by exact re-solves; solve_real_lp_problem_clarabel's shadow price of every named row must equal the sensitivity in the user's sense (1e-5), inactive rows 0, unnamed rows absent. All subsets of unnamed rows are enumerated in family D1.",
    note="Trusted: exact LP oracle and n x n multiplier system; 1e-5 tolerance for the interior-point duals. Clarabel is the only default-feature solver that reports duals.", ref="4/C20"),
+ "C09": dict(cat="exploration", tech="exhaustive enumeration of all well-formed token sequences up to a length bound (grammar-directed DFS), each parsed by rooc and by an independent precedence-climbing reference parser; tree shapes compared",
+   text="Every well-formed token sequence up to length 6 (quick) / 8 (thorough) over operands, 9 binary operators, 2 prefix operators, parentheses and implicit multiplication is rendered in 6 spellings (keywords, symbolic aliases, with/without whitespace, identifiers that start with a keyword) in objective and constraint position; rooc's parse tree (and, when well-typed, the compiled expression) must have exactly the grouping the documented grammar gives.",
+   note="Trusted: the reference parser (60 lines) written from the property statement; shapes are compared, which implies value equality.", ref="4/C09"),
+ "C11": dict(cat="exploration", tech="exhaustive enumeration of expression trees (all shapes x all operators x prefix decorations) rendered by a reference printer, plus a construct corpus; format() output re-parsed and compared structurally, idempotence and compiled-model equality checked",
+   text="Every tree with <= 3 (thorough: 4) binary operators over the 9 operators with prefix decorations is printed with exactly the necessary parentheses, fully parenthesised and with aliases; a corpus covers every declaration/block/iterator/constant form. For each text: format(t) parses, parses to the same program (JSON structure without spans), format is idempotent, and t and format(t) compile to the same Model.",
+   note="Trusted: reference printer/parser pair (self-checked against each other on every tree); serde structure of PreModel/Model with spans removed.", ref="4/C11"),
+ "C12": dict(cat="exploration", tech="exhaustive enumeration of compiled models (expression families, corpus, direct LinearModel families x coefficient/domain/naming alphabets); renderings recompiled through parse/type-check/transform/linearize and compared exactly",
+   text="Model renderings of all compiled expression-family programs and corpus programs must be accepted and linearize to the same linear model; LinearModel renderings (of those models and of direct families with coefficients down to 1e-9 and up to 1e9, $-prefixed and indexed names, all domain forms, min/max/satisfy, offsets) must recompile to the same rows, objective, offset and domains, and render to the same text again.",
+   note="Trusted: exact f64 comparison (Rust prints shortest round-trip decimals); all-zero rows compared by truth value; unused variables projected away; hand-built models are first compiled once (their first compilation must be exactly equivalent per the exact MILP oracle).", ref="4/C12"),
 }
 NA_REASON = "engine not built yet in this round (planned, see DESIGN.md section 4); not claimed until its check exists"
 ALL = ["C%02d" % i for i in range(1, 21)]
